@@ -1321,8 +1321,17 @@ fn honest_with_ksf(acc: &mut Acc) { gen_c01_ksf!(K_R_R, acc); gen_c01_ksf!(K_P25
 fn argon2_adapter(acc: &mut Acc) {
     use generic_array::{typenum::{U32, U64}, GenericArray};
     use opaque_ke::ksf::Ksf;
+    // instances that differ in the cost parameters, and instances that differ OUTSIDE them (variant, version, secret key)
+    let mut insts: Vec<(String, argon2::Argon2<'static>)> = vec![];
     for (m, t, p) in [(8u32, 1u32, 1u32), (16, 2, 1), (32, 1, 2)] {
-        let a = argon2::Argon2::new(argon2::Algorithm::Argon2id, argon2::Version::V0x13, argon2::Params::new(m, t, p, None).unwrap());
+        insts.push((format!("Argon2id v1.3 m={} t={} p={}", m, t, p), argon2::Argon2::new(argon2::Algorithm::Argon2id, argon2::Version::V0x13, argon2::Params::new(m, t, p, None).unwrap())));
+    }
+    insts.push(("Argon2i v1.3".into(), argon2::Argon2::new(argon2::Algorithm::Argon2i, argon2::Version::V0x13, argon2::Params::new(8, 1, 1, None).unwrap())));
+    insts.push(("Argon2d v1.3".into(), argon2::Argon2::new(argon2::Algorithm::Argon2d, argon2::Version::V0x13, argon2::Params::new(8, 1, 1, None).unwrap())));
+    insts.push(("Argon2id v1.0".into(), argon2::Argon2::new(argon2::Algorithm::Argon2id, argon2::Version::V0x10, argon2::Params::new(8, 1, 1, None).unwrap())));
+    insts.push(("Argon2id v1.3 keyed".into(), argon2::Argon2::new_with_secret(b"pepper-pepper-A", argon2::Algorithm::Argon2id, argon2::Version::V0x13, argon2::Params::new(8, 1, 1, None).unwrap()).unwrap()));
+    for (iname, a) in insts.iter() {
+        let (m, t, p) = (a.params().m_cost(), a.params().t_cost(), a.params().p_cost());
         let mut rng = StdRng::seed_from_u64(900 + m as u64);
         for _ in 0..3 {
             acc.tried += 1;
@@ -1330,9 +1339,9 @@ fn argon2_adapter(acc: &mut Acc) {
             let mut i64 = GenericArray::<u8, U64>::default(); rng.fill_bytes(&mut i64);
             let mut e32 = [0u8; 32]; a.hash_password_into(&i32, &[0u8; 16], &mut e32).unwrap();
             let mut e64 = [0u8; 64]; a.hash_password_into(&i64, &[0u8; 16], &mut e64).unwrap();
-            match (Ksf::hash(&a, i32.clone()), Ksf::hash(&a, i64.clone())) {
+            match (Ksf::hash(a, i32.clone()), Ksf::hash(a, i64.clone())) {
                 (Ok(o32), Ok(o64)) => if o32.as_slice() != e32 || o64.as_slice() != e64 {
-                    acc.hit("argon2", "Argon2 adapter output differs from Argon2(params; input, 16 zero bytes of salt)", json!({"m_cost": m, "t_cost": t, "p_cost": p, "input32": hex::encode(&i32), "got32": hex::encode(&o32), "expected32": hex::encode(e32)})); },
+                    acc.hit("argon2", "Argon2 adapter output differs from THIS instance's Argon2(input, 16 zero bytes of salt)", json!({"instance": iname, "m_cost": m, "t_cost": t, "p_cost": p, "input32": hex::encode(&i32), "got32": hex::encode(&o32), "expected32": hex::encode(e32)})); },
                 (x, y) => acc.hit("argon2", "Argon2 adapter failed where argon2 succeeds", json!({"e32": format!("{:?}", x.err()), "e64": format!("{:?}", y.err())})),
             }
         }
@@ -1343,7 +1352,11 @@ pub struct A_R_R; impl CipherSuite for A_R_R { type OprfCs = opaque_ke::Ristrett
 fn argon2_honest(acc: &mut Acc) {
     let k1 = argon2::Argon2::new(argon2::Algorithm::Argon2id, argon2::Version::V0x13, argon2::Params::new(8, 1, 1, None).unwrap());
     let k2 = argon2::Argon2::new(argon2::Algorithm::Argon2id, argon2::Version::V0x13, argon2::Params::new(16, 1, 1, None).unwrap());
-    for (i, (kr, kl, must)) in [(&k1, &k1, true), (&k1, &k2, false)].iter().enumerate() {
+    let k3 = argon2::Argon2::new_with_secret(b"pepper-pepper-A", argon2::Algorithm::Argon2id, argon2::Version::V0x13, argon2::Params::new(8, 1, 1, None).unwrap()).unwrap();
+    let k4 = argon2::Argon2::new_with_secret(b"pepper-pepper-B", argon2::Algorithm::Argon2id, argon2::Version::V0x13, argon2::Params::new(8, 1, 1, None).unwrap()).unwrap();
+    let k5 = argon2::Argon2::new(argon2::Algorithm::Argon2i, argon2::Version::V0x13, argon2::Params::new(8, 1, 1, None).unwrap());
+    let k6 = argon2::Argon2::new(argon2::Algorithm::Argon2id, argon2::Version::V0x10, argon2::Params::new(8, 1, 1, None).unwrap());
+    for (i, (kr, kl, must)) in [(&k1, &k1, true), (&k1, &k2, false), (&k3, &k3, true), (&k3, &k4, false), (&k3, &k1, false), (&k5, &k1, false), (&k6, &k1, false), (&k5, &k5, true)].iter().enumerate() {
         acc.tried += 1;
         let r = (|| -> Result<bool, ProtocolError> {
             let mut rng = StdRng::seed_from_u64(15900 + i as u64);
@@ -1356,7 +1369,7 @@ fn argon2_honest(acc: &mut Acc) {
             let sl = ServerLogin::<A_R_R>::start(&mut rng, &setup, Some(file), cl.message, b"id", ServerLoginStartParameters::default())?;
             Ok(cl.state.finish(b"pw", sl.message, ClientLoginFinishParameters::new(None, Identifiers::default(), Some(*kl))).is_ok())
         })();
-        match r { Ok(ok) => if ok != *must { acc.hit("A_R_R", "Argon2 parameters selection / binding", json!({"same_parameters": must, "login_succeeded": ok})); },
+        match r { Ok(ok) => if ok != *must { acc.hit("A_R_R", "Argon2 instance selection / binding (cost parameters, variant, version, secret key)", json!({"case": i, "same_instance": must, "login_succeeded": ok})); },
                   Err(e) => acc.hit("A_R_R", "run failed", json!({"error": format!("{:?}", e)})) }
     }
 }
